@@ -289,7 +289,10 @@ func (d Driver) Run(c *core.Ctx) error {
 		<-done
 	}
 	// 1. model level: laws of the cascade, of transform composition, of the shape regions and of the event lists
-	c.TLC(tlc.Opts{Module: "SVGDoc", Config: cfg("mc", c.Pick(40, 500), true), Seed: c.Seed, Coverage: c.Thorough(), Timeout: 20 * time.Minute}, true)
+	// (no -coverage: TLC's cost model runs out of 8 GB on the recursive geometry operators — measured with 120 documents; the
+	// behaviour has only the actions Grow and Emit, and every document takes both: distinct states = 3 x documents)
+	mc := c.TLC(tlc.Opts{Module: "SVGDoc", Config: cfg("mc", c.Pick(40, 500), true), Seed: c.Seed, Timeout: 20 * time.Minute}, true)
+	c.SetExtra("model_check_documents", mc.Distinct/3)
 	// 2. spec -> code: documents
 	run(tlc.Opts{Module: "SVGDoc", Config: cfg("gen", c.Pick(1000, 16000), false), Seed: c.Seed, Timeout: 40 * time.Minute})
 	// 3. round trip
